@@ -19,6 +19,7 @@ CONSTANTS
   Order <- OrderAsIs
   CheckAccepts = TRUE
   SimCommits = FALSE
+  WithNext = TRUE
   NextTwoLoads = TRUE
 SYMMETRY Sym
 INVARIANT NextIsOneSnapshot
